@@ -14,7 +14,10 @@ HARNESSES = ("pending_h",)
 MLS = ("pending",)
 THEOREMS = ["C17_at_most_once", "C17_pairing", "C17_serials", "C17_serial_sequence", "C17_serial_nonzero", "C17_serial_wraps", "C17_serial_tie",
             "C17_cancel_silent_partial", "C17_cancel_silent_refuted", "C17_fault_only_null_link", "C17_no_fault_partial", "C17_no_fault_refuted",
-            "C17_close_completes_refuted", "C17_queued_reply_completes_once", "C17_timeout_completes_once", "C17_block_completes_once"]
+            "C17_close_completes_refuted", "C17_queued_reply_completes_once", "C17_timeout_completes_once", "C17_block_completes_once",
+            "C17_elapsed_bounds", "C17_give_up_complete", "C17_give_up_sound_partial", "C17_give_up_exact",
+            "C17_timeout_not_early_refuted_rounding", "C17_timeout_not_early_refuted_backwards", "C17_no_early_timeout",
+            "C17_timed_block_is_run", "C17_timed_block_at_most_once", "C17_timeout_lifecycle"]
 
 MAXCALLS = 6
 FAULT_REPLAYS = 12
